@@ -5,6 +5,21 @@ import numpy as np
 
 from common import err_code
 
+CONFIG = {
+    "cone": ["Base/ListUtil.v", "Model/Store.v", "Proofs/StoreProofs.v", "Properties/C13.v"],
+    "trusted": ["Model/Store.v models ArrayStore row-wise (a row = one candidate id encoded redundantly into every field; "
+                "the harness decoder flags torn rows)"],
+    "level_text": "Theorems in coq/Properties/C13.v quantify over every capacity (0 and 1 included), every history of add/clear/resize "
+                  "and every transform chain of the Store model: invariant (len = #occupied, occupied_list duplicate-free and exact, "
+                  "append-only in first-filled order), read-your-writes with last-wins, resize/raw round trip preservation, iterator "
+                  "invalidation. The model is tied to ribs/archives/_array_store.py by a differential run of the extracted model "
+                  "against the real ArrayStore on generated histories on every run.",
+    "level_note": "Trusted: Coq kernel; extraction (ExtrOcamlBasic only) + OCaml driver; the hand-written model (tied by sampling "
+                  "only); harness generators/canonicalisers. No axioms (Print Assumptions: closed under the global context).",
+    "technique": "Rocq/Coq proof over an executable Gallina model + model-vs-implementation correspondence run",
+    "design_ref": "DESIGN.md section 5, C13",
+}
+
 LAYOUTS = [
     [("a", (), np.float64)],
     [("a", (), np.float32), ("v", (3,), np.float64)],
